@@ -1,21 +1,21 @@
 SPECIFICATION Spec
 CONSTANTS
-    LeafNames = {"a", "b"}
-    UserTimes <- MCUserTimes
-    MaxDepth = 2
+    LeafNames = {"a"}
+    UserTimes = {}
+    MaxDepth = 1
     TimeChoices <- MCTimeChoices
-    MaxOps = 2
-    Schedules <- MCSchedulesQuick
+    MaxOps = 1
+    Schedules <- MCSchedulesNeg
     Base = 120
     SpanLens <- MCSpanLensQuick
     DBRPs <- MCDBRPs
     DefaultRPs <- MCDefaultRPs
-    ChildLists <- MCChildLists
+    ChildLists <- MCChildListsNeg
     WrapUser = TRUE
     TruncNext = TRUE
     CloneSharesGB = TRUE
     FluxEndsCollection = FALSE
-    ResolveEmptyRP = FALSE
+    ResolveEmptyRP = TRUE
 INVARIANTS
     TypeOK
     RangeIsExact
